@@ -13,6 +13,7 @@ logarithm is applied by the instance (`Float.log` in the driver, `Real.log` in t
 `Σ_j b_j z^j` at `z = exp(-1j·π k/n)` (`polyEval`, shared with C10).
 -/
 import Nitime.Model.ARBase
+import Nitime.Generated.FreqResponse
 
 namespace Nitime.C12
 open Nitime.AR Nitime.AR.Scalar Nitime.Proto
@@ -114,7 +115,10 @@ def defaultIJ (n : Nat) : List (Nat × Nat) :=
 
 /-! ### line protocol (CF instance) -/
 
-def nBins (nFreqs : Nat) : Nat := nFreqs / 2 + 1
+/-- `freq_response(…, n_freqs)` default `sides='onesided'`: generated point count -/
+def nBins (nFreqs : Nat) : Nat := Nitime.Generated.FreqResponse.realN nFreqs true
+
+def incl : Bool := Nitime.Generated.FreqResponse.includeNyquist
 
 def ofReals (l : List Float) : List CF := l.map CF.ofFloat
 
@@ -130,7 +134,7 @@ def showM2 (ms : List (M2 CF)) : String :=
   showCList (ms.map (·.m00)) ++ " " ++ showCList (ms.map (·.m01)) ++ " " ++
   showCList (ms.map (·.m10)) ++ " " ++ showCList (ms.map (·.m11))
 
-def gridZ (nf : Nat) : List CF := (List.range (nBins nf)).map fun k => (phasor false k (nBins nf) : CF)
+def gridZ (nf : Nat) : List CF := (List.range (nBins nf)).map fun k => (gridPhasor incl false k (nBins nf) : CF)
 
 def logRe (z : CF) : Float := Float.log z.re
 
@@ -157,7 +161,7 @@ def handle (args : List String) : String :=
   | ["tf", nf, p, a] => match nf.toNat?, p.toNat?, parseFloatList? a with
     | some nf, some p, some a =>
       let c := coefsOf p a
-      let w := (List.range (nBins nf)).map fun k => CF.gridW false k (nBins nf)
+      let w := (List.range (nBins nf)).map fun k => CF.gridWI incl false k (nBins nf)
       "ok " ++ showFloatList w ++ " " ++ showM2 ((gridZ nf).map fun z => transferAt c z)
     | _, _, _ => "bad-op"
   | ["sm", nf, p, a, cv] => match nf.toNat?, p.toNat?, parseFloatList? a, parseFloatList? cv with
